@@ -491,4 +491,7 @@ func main() {
 
 	w.WriteString("end Gv.Gen\n")
 	writeIfChanged(filepath.Join(out, "Tables.lean"), w.String())
+
+	// T2 (C07): straight-line float code of distance/dna
+	emitNumericDist(repo, out, en)
 }
